@@ -10,7 +10,7 @@ from .. import grouplab as G
 ID = "C14"
 LEVEL = "exploration"
 RULE = ("a catalogue of multi-class trees (classes of 1-4 files of several sizes over three roots - one name a string prefix of "
-        "another, some groups without a copy under the first root given -, with and without hard "
+        "another, some groups without a copy under the first root given -, with and without hard links; one tree of names that need quoting in CSV / escaping in text and fdupes output; "
         "links; every composition of class sizes up to the bound) x filter {default, --rf-over 0/2, --unique, "
         "--rf-under 3, --isolate, --match-links, transform keep} x format {default, json, csv, fdupes} x {stdout, -o "
         "file} x three root orders. Oracle: header statistics recomputed from the parsed body by the documented "
@@ -58,6 +58,16 @@ def catalogue(tier):
         tree.append({"p": "r3/e", "k": "dir"})
         tree.append({"p": "r1/a", "k": "dir"})
         trees.append((ti, hard, tree))
+    # names that need quoting / escaping in CSV, in the fdupes layout and in the text format
+    hostile = ["a,b", 'q"uote', "new\nline", "semi;colon", " lead", "trail ", "tab\there", "back\\slash", "\udcffraw", "#hash"]
+    tree = []
+    for i, n in enumerate(hostile):
+        tree.append({"p": "r1/a/%s" % n, "k": "file", "c": ["base", 50 + i, i + 1]})
+        tree.append({"p": "r1x/b/%s" % n, "k": "file", "c": ["base", 50 + i, i + 1]})
+        if i % 3 == 0:
+            tree.append({"p": "r3/e/%s" % n, "k": "file", "c": ["base", 50 + i, i + 1]})
+    tree.append({"p": "r3/e", "k": "dir"})
+    trees.append((1000, False, tree))
     return trees
 
 
